@@ -16,8 +16,8 @@ SAN_ENV = {"ASAN_OPTIONS": "halt_on_error=0:detect_leaks=0:abort_on_error=0:prin
            "UBSAN_OPTIONS": "print_stacktrace=1:halt_on_error=0", "VH_STDERR_MARKERS": "1"}
 
 # driver -> (quick sample per flavour, thorough sample per flavour, per-case timeout)
-PLAN = [("bounds", 48, 400, 60), ("gfdef", 30, 300, 120), ("g2def", 8, 80, 600), ("ham", 40, 400, 60), ("presets", 120, 2000, 60), ("opalg", 120, 1500, 120),
-        ("symm", 40, 500, 60), ("partinv", 8, 120, 600), ("dm", 30, 400, 60), ("fieldop", 16, 200, 120), ("gfsym", 12, 200, 240), ("wick", 6, 60, 600),
+PLAN = [("bounds", 48, 400, 60), ("gfdef", 30, 300, 120), ("g2def", 4, 80, 600), ("ham", 40, 400, 60), ("presets", 120, 2000, 60), ("opalg", 120, 1500, 120),
+        ("symm", 40, 500, 60), ("partinv", 6, 120, 600), ("dm", 30, 400, 60), ("fieldop", 16, 200, 120), ("gfsym", 12, 200, 240), ("wick", 6, 60, 600),
         ("g2cont", 16, 200, 240), ("susc", 16, 240, 120), ("vertex", 27, 84, 240), ("index", 60, 1200, 120), ("trunc", 16, 200, 240), ("lattice", 60, 1500, 60)]
 
 
@@ -64,9 +64,18 @@ def run(tier, seed):
     executed = {}
     only = os.environ.get("VERIF_C17_ONLY")   # debugging aid: restrict the plan to some drivers
     plan = [p for p in PLAN if not only or p[0] in only.split(",")]
-    for (driver, qs, ts, tmo) in plan:
+    import concurrent.futures as cf
+
+    def go(item):
+        driver, qs, ts, tmo = item
         sample = qs if tier == "quick" else ts
-        merged = runner.run_driver({f: vhs[f] for f in A2}, driver, seed, tier, wdir, per_case_timeout=tmo, env_extra=SAN_ENV, sample=sample)
+        return item, runner.run_driver({f: vhs[f] for f in A2}, driver, seed, tier, wdir, per_case_timeout=tmo, env_extra=SAN_ENV, sample=sample, workers=6)
+
+    # several drivers at a time: most quick samples are too small to keep 16 cores busy on their own
+    with cf.ThreadPoolExecutor(max_workers=4) as ex:
+        results = list(ex.map(go, plan))
+    for (item, merged) in results:
+        driver = item[0]
         n = 0
         for fl, res in merged.items():
             for case in res.cases:
